@@ -2110,9 +2110,57 @@ def main_ts():
     return 0
 
 
+INPUTS = ["muduo/base/Date.cc", "muduo/base/Date.h", "muduo/base/TimeZone.cc", "muduo/base/TimeZone.h", "muduo/base/Timestamp.cc",
+          "muduo/base/Timestamp.h", "muduo/net/Endian.h", "muduo/net/SocketsOps.cc", "muduo/net/SocketsOps.h", "muduo/net/InetAddress.cc",
+          "muduo/net/InetAddress.h", "muduo/base/Types.h", "muduo/base/copyable.h", "muduo/base/StringPiece.h"]
+OUTPUTS = ["coq/Gen_C20.v", "coq/Gen_C20Net.v", "coq/Gen_C20Tz.v", "coq/Gen_C20Ts.v"]
+
+
+def _digest(paths):
+    import hashlib
+    h = hashlib.sha256()
+    for q in paths:
+        h.update(q.encode() + b"\0")
+        try:
+            h.update(open(q, "rb").read())
+        except OSError:
+            h.update(b"<missing>")
+        h.update(b"\0")
+    return h.hexdigest()
+
+
+def run_all():
+    """The four translations are pure functions of the listed sources and of the translator itself: when the
+    digest of all of them and of the four outputs is the one recorded by the last complete run, the outputs
+    are already what a regeneration would write (and the FALLBACK lines of that run are repeated)."""
+    here = os.path.dirname(os.path.abspath(__file__))
+    import glob
+    hdrs = sorted(glob.glob(os.path.join(cxxast.REPO, "muduo/base/*.h")) + glob.glob(os.path.join(cxxast.REPO, "muduo/net/*.h")))
+    ins = sorted(set([os.path.join(cxxast.REPO, f) for f in INPUTS] + hdrs)) + [os.path.join(here, "gen_C20.py"), os.path.join(here, "cxxast.py")]
+    outs = [os.path.join(cxxast.ROOT, f) for f in OUTPUTS]
+    stampdir = os.path.join(cxxast.ROOT, "_work")
+    stamp = os.path.join(stampdir, "gen_C20.stamp")
+    key = cxxast.REPO + "\n" + _digest(ins)
+    try:
+        old = open(stamp).read().split("\n---\n")
+        if len(old) == 3 and old[0] == key and old[1] == _digest(outs):
+            sys.stdout.write(old[2])
+            return 0
+    except OSError:
+        pass
+    import io, contextlib
+    buf = io.StringIO()
+    with contextlib.redirect_stdout(buf):
+        rc = main() or main_net() or main_tz() or main_ts()
+    sys.stdout.write(buf.getvalue())
+    try:
+        os.makedirs(stampdir, exist_ok=True)
+        with open(stamp, "w") as f:
+            f.write(key + "\n---\n" + _digest(outs) + "\n---\n" + buf.getvalue())
+    except OSError:
+        pass
+    return rc
+
+
 if __name__ == "__main__":
-    rc = main()
-    rc2 = main_net()
-    rc3 = main_tz()
-    rc4 = main_ts()
-    sys.exit(rc or rc2 or rc3 or rc4)
+    sys.exit(run_all())
